@@ -29,6 +29,18 @@ CLAIMED = {
  "C19": ("Bounded model checking of the echo waiter protocol: echoNotify from every waiter table of <= 3 entries, Parse on every ICMPv4/ICMPv6 frame up to 80 bytes with a pending waiter (completion iff the reference decoder sees a well-formed echo reply with that identifier), and ping/Ping6 against a programmable connection for every identifier-counter value (no reply, send failure, matching reply, foreign identifier, overlapping second ping): nil iff own reply, distinct identifiers, no waiter left behind.",
          "Trusted: go/ssa, gse semantics (channels/select in sequential mode: timer arm always enabled, closed wake-up channel enables its arm, all enabled arms explored), z3. Real goroutine interleavings are not explored.",
          "DESIGN.md §4 C19", "bounded symbolic execution with symbolic waiter tables / identifier counter, SMT-decided completion conditions"),
+ "C04": ("Bounded model checking by induction: from every symbolic host/MAC-table state of the bounded shapes that satisfies the representation invariant, one step (Parse+Notify of an IPv4 / ARP / IPv6 frame with every header field symbolic, purge(now), DHCPv4Update) is executed from the real SSA and the post-state is compared with a reference transition model over (MAC, IP, online) triples: creation predicate, IPv4 supersession, re-binding of an address claimed by another MAC, offline / purge cut-offs, everything else unchanged.",
+         "Trusted: go/ssa, gse semantics, z3, the reference transition model written in the harness, the invariant (assumed on the pre-state, asserted on the post-state by C05). Shapes: <= 2 MAC entries, <= 3 hosts (evidence.bounds).",
+         "DESIGN.md §4 C04-C06", "inductive step by bounded symbolic execution from symbolic invariant states, SMT-decided transition specification"),
+ "C05": ("Bounded model checking by induction: the table invariants (host indexed under its own IP, belongs to exactly the MAC entry that lists it and shares its MAC, entries unique per MAC, online host => online entry, index size = number of listed hosts, PrintTable self-check does not panic) are assumed on a symbolic pre-state and asserted after every step of the C04 harness family.",
+         "Trusted: as C04. Capture/Release/SetDHCPv4IPOffer and the concurrent quiescent points of C09 are not covered.",
+         "DESIGN.md §4 C04-C06", "inductive step by bounded symbolic execution: invariant preservation as SMT obligations"),
+ "C06": ("Bounded model checking by induction: after every Parse+Notify / purge step from a clean (no pending notification) invariant state the drained channel is checked: repeat traffic notifies nothing; first sight or return from offline yields exactly one online notification, preceded by exactly one offline notification per superseded online IPv4 sibling; ageing yields exactly one offline notification; contents equal the tracked state; nothing stays pending.",
+         "Trusted: as C04. Name-change notifications, channel overflow and liveness (eventual delivery) are outside the claim.",
+         "DESIGN.md §4 C04-C06", "inductive step by bounded symbolic execution: notification contract asserted on the drained channel"),
+ "C10": ("Bounded model checking of a provenance invariant: the packet buffer is a tagged object; after each step of the C04 harness family (Parse, Notify, DHCPv4Update) everything reachable from the session, and separately the NDP option structure and the DNS entry built by the decoders (what the ICMPv6 and naming handlers store), is walked and must not reference the tagged buffer. Exact per path; implies that scribbling over the buffer cannot change retained state.",
+         "Trusted: go/ssa, gse semantics, z3. The handlers' own tables (DHCP leases, router table, mDNS cache) are covered only through the decoder results they store; SSDP/UPnP excluded.",
+         "DESIGN.md §4 C10", "bounded symbolic execution with a heap provenance walk on every path"),
 }
 
 NOT_APPLICABLE = {
